@@ -236,6 +236,13 @@ impl<'tcx, 'a> Cx<'tcx, 'a> {
                 }
             }
         }
+        // a reference to a static item: which one
+        if let Const::Val(mir::ConstValue::Scalar(mir::interpret::Scalar::Ptr(ptr, _)), _) = c.const_ {
+            let aid = ptr.provenance.alloc_id();
+            if let Some(mir::interpret::GlobalAlloc::Static(sdid)) = tcx.try_get_global_alloc(aid) {
+                v.push(("static", J::s(def_path(tcx, sdid))));
+            }
+        }
         v.push(("dbg", J::s(ty::print::with_no_trimmed_paths!(format!("{}", c.const_)))));
         J::obj(v)
     }
